@@ -115,7 +115,7 @@ class Scenario(worlds.World):
             acts += [("accept",), ("refuse",)]
         live = self.net.live()
         if live:
-            acts += [("eof",), ("reset",), ("garbage",), ("badcrc",), ("trunc_eof",), ("frame",)]
+            acts += [("eof",), ("reset",), ("linkerr",), ("garbage",), ("badcrc",), ("trunc_eof",), ("frame",)]
             if live[-1].fail_after is None:
                 acts.append(("failw",))
         if self.nsend < self.max_send:
@@ -141,6 +141,8 @@ class Scenario(worlds.World):
             self.net.live()[-1].peer_eof()
         elif op == "reset":
             self.net.live()[-1].peer_reset()
+        elif op == "linkerr":
+            self.net.live()[-1].peer_reset(OSError(113, "sim: no route to host"))
         elif op == "garbage":
             self.net.live()[-1].peer_send(self.garbage)
         elif op == "badcrc":
